@@ -12,6 +12,7 @@ import (
 	_ "panmc/checks/c02"
 	_ "panmc/checks/c10"
 	_ "panmc/checks/c11"
+	_ "panmc/checks/c12"
 	_ "panmc/checks/c18"
 )
 
